@@ -170,12 +170,12 @@ class LazyEvaluatedKernelTensor(LinearOperator):
             # outputs per input that we have
             row_start, row_end, row_step = (
                 row_index.start or 0,
-                row_index.stop or self.shape[-2],
+                self.shape[-2] if row_index.stop is None else row_index.stop,
                 row_index.step,
             )
             col_start, col_end, col_step = (
                 col_index.start or 0,
-                col_index.stop or self.shape[-1],
+                self.shape[-1] if col_index.stop is None else col_index.stop,
                 col_index.step,
             )
             if row_step is not None or col_step is not None:
